@@ -1106,7 +1106,7 @@ func (m *membersPool) Get(k *net.UDPAddr) (Member, bool) {
 	case !found, i == nil:
 		return nil, false
 	default:
-		return i, false
+		return i, true
 	}
 }
 
@@ -1149,19 +1149,25 @@ func (m *membersPool) MembersLen(node base.Address) int {
 }
 
 func (m *membersPool) Set(member Member) (added bool) {
-	_, _, _ = m.addrs.Set(memberid(member.Addr()), func(_ Member, addrfound bool) (Member, error) {
-		var members []Member
+	id := memberid(member.Addr())
+	node := member.Address().String()
 
+	_, _, _ = m.addrs.Set(id, func(prev Member, addrfound bool) (Member, error) {
 		added = !addrfound
 
-		switch i, f := m.members.Value(member.Address().String()); {
-		case !f, i == nil:
-		default:
-			members = i
+		if addrfound && prev != nil {
+			// NOTE re-joined; the previous member of this addr is replaced, not
+			// duplicated.
+			m.removeFromNode(prev.Address().String(), id)
 		}
 
-		members = append(members, member)
-		m.members.SetValue(member.Address().String(), members)
+		_, _, _ = m.members.Set(node, func(members []Member, _ bool) ([]Member, error) {
+			n := make([]Member, len(members)+1)
+			copy(n, members)
+			n[len(members)] = member
+
+			return n, nil
+		})
 
 		return member, nil
 	})
@@ -1170,12 +1176,30 @@ func (m *membersPool) Set(member Member) (added bool) {
 }
 
 func (m *membersPool) Remove(k *net.UDPAddr) (bool, error) {
-	return m.addrs.Remove(memberid(k), func(i Member, found bool) error {
-		if found {
-			_ = m.members.RemoveValue(i.Address().String())
+	id := memberid(k)
+
+	return m.addrs.Remove(id, func(i Member, found bool) error {
+		if found && i != nil {
+			m.removeFromNode(i.Address().String(), id)
 		}
 
 		return nil
+	})
+}
+
+// removeFromNode removes only the member of the given addr from the members of
+// node; the other members of node are kept.
+func (m *membersPool) removeFromNode(node, id string) {
+	_, _, _, _ = m.members.SetOrRemove(node, func(members []Member, found bool) ([]Member, bool, error) {
+		if !found {
+			return nil, false, util.ErrLockedSetIgnore.WithStack()
+		}
+
+		n := util.FilterSlice(members, func(i Member) bool {
+			return memberid(i.Addr()) != id
+		})
+
+		return n, len(n) < 1, nil
 	})
 }
 
